@@ -619,6 +619,11 @@ def check_c11(chk, rng):
     chk.coverage["traces_validated_against_impl"] += len(lprogs)
     for k in (0, 1):
         chk.sample({"scenario": scns[k].splitlines(), "required": preds[hists[k]["id"]]})
+    # level B of reduce_node.cpp (ReduceTree.tla: dense leaves, key map, heap-indexed combiners with cached partial results,
+    # swap-with-last removal, power-of-two growth, zero rules; model-checked with its named faults); its behaviours replayed,
+    # ReduceTreeTrace.tla (level A) judges every recorded cycle
+    import reduce_model
+    reduce_model.run(chk, rng)
     chk.coverage["rule"] = ("random histories of add / update / remove with several events per cycle, growth through the power-of-two capacities, "
                             "shrink to empty and regrow, 2-20 keys; combiners add_ / min_ / max_ (library operators), a sub-graph combiner and a node "
                             "combiner; zero absent / identity / non-identity (100, -7: exposes any involvement of the zero); the result is read in "
